@@ -688,22 +688,52 @@ def rule_floor_direction(repo, rule):
                     return True
             return False
         negs = [x for x in ast.walk(fi.node) if isinstance(x, ast.UnaryOp) and isinstance(x.op, ast.USub) and not isinstance(x.operand, ast.Constant)]
-        # a negation applied to something computed by a division, or feeding one
+        # Sign parity of every rounding division: negating BOTH operands leaves the quotient's exact value (and so its floor)
+        # unchanged - floor((-a)/(-d)) = floor(a/d), and (-a) mod (-d) = -(a mod d), so negating that remainder is Python's
+        # remainder for a negative divisor.  Negating exactly ONE operand, or the quotient, turns the floor into a ceiling.
+
+        def is_neg(e):
+            while isinstance(e, ast.Call) and norm(e.func).split(".")[-1] in ("LinCombFxp", "_ensurefxp", "_ensurelc") and e.args:
+                e = e.args[0]
+            return isinstance(e, ast.UnaryOp) and isinstance(e.op, ast.USub) and not isinstance(e.operand, ast.Constant)
+
+        def operands(d):
+            if isinstance(d, ast.BinOp):
+                return d.left, d.right
+            if isinstance(d.func, ast.Attribute) and len(d.args) == 1:
+                return d.func.value, d.args[0]
+            if len(d.args) == 2:
+                return d.args[0], d.args[1]
+            return None, None
+        divs = [x for x in ast.walk(fi.node) if (isinstance(x, ast.BinOp) and isinstance(x.op, (ast.FloorDiv, ast.Div, ast.Mod))) or (
+            isinstance(x, ast.Call) and norm(x.func).split(".")[-1] in DIV[:8] + ("divmod",))]
         bad = None
-        for x in negs:
+        both_neg_rem = set()       # names holding the remainder of a both-negated divmod
+        quo_names = set()          # names holding a quotient (or a whole divmod pair)
+        for d in divs:
+            l_, r_ = operands(d)
+            if l_ is None:
+                continue
+            nl, nr = is_neg(l_), is_neg(r_)
+            if nl != nr:
+                bad = (l_ if nl else r_, "exactly one operand of a rounding division is negated")
+                break
+            st = d
+            while getattr(st, "_parent", None) is not None and not isinstance(st, ast.stmt):
+                st = st._parent
+            if isinstance(st, ast.Assign) and st.value is d and len(st.targets) == 1:
+                tg = st.targets[0]
+                if isinstance(tg, (ast.Tuple, ast.List)) and len(tg.elts) == 2 and all(isinstance(e_, ast.Name) for e_ in tg.elts):
+                    quo_names.add(tg.elts[0].id)
+                    (both_neg_rem if nl else quo_names).add(tg.elts[1].id)
+                elif isinstance(tg, ast.Name):
+                    quo_names.add(tg.id)
+        for x in ([] if bad else negs):
             if divides(x.operand):
                 bad = (x, "the result of a rounding division is negated")
                 break
-            for p_ in parents(x):
-                if isinstance(p_, ast.Call) and norm(p_.func).split(".")[-1] in DIV + ("divmod",) and any(x is a or any(x is y for y in ast.walk(a)) for a in p_.args):
-                    bad = (x, "a negated operand is passed into a rounding division")
-                    break
-                if isinstance(p_, ast.BinOp) and isinstance(p_.op, (ast.FloorDiv, ast.Div, ast.Mod)):
-                    bad = (x, "a negated operand takes part in a rounding division")
-                    break
-                if isinstance(p_, ast.stmt):
-                    break
-            if bad:
+            if isinstance(x.operand, ast.Name) and x.operand.id in quo_names and x.operand.id not in both_neg_rem:
+                bad = (x, "the result of a rounding division is negated")
                 break
         n += 1
         if bad:
